@@ -26,4 +26,9 @@ def run (toks : List String) : Option String :=
     pure (showRanges (chunkRange lo hi k))
   | _ => none
 
+abbrev State := Unit
+def init : State := ()
+def step (st : State) (toks : List String) : Option (State × String) := (run toks).map (st, ·)
+
 end Driver.C08
+def main : IO Unit := Driver.runLoop Driver.C08.init Driver.C08.step
